@@ -287,6 +287,7 @@ func c09Tune(g *gen) {
 
 func init() {
 	runners["C09"] = func(c *ctx) {
+		c.stateProj = "sp_balances" // the part of the state this property's theorems speak about
 		u := newUniverse()
 		proj := tkProj(true, true)
 		c.rep.Rule = "(1) sweep on clones of three 2-shard worlds (oracle answers payable / not payable / error for every destination): token kind {ESDTTransfer, ESDTNFTTransfer, multi fungible-only, multi NFT-only, multi mixed} x call type {direct, async, callback, transfer-and-execute} x argument count {minimum, +1, +2} x destination {user, contract} x side {sender side with the destination on the same shard; sender side towards the other shard followed by delivery of the real message (refund when refused); destination-side inputs written by hand with Snd=false, Dst=true, sent by a user and by the ESDT system contract}; a contract as sender; structural family: destination on the metachain (user address, ESDT system contract address), the sender itself, 31-byte, 33-byte and empty destination x call types x argument counts. " +
